@@ -48,8 +48,8 @@ def main():
             if any(not o["ok"] for o in chk.obs):
                 chk.note("self-validation skipped: the unchanged tree already has failing obligations")
             else:
-                okn, problems = mutate.validate(pid, verbose=False)
-                chk.note("self-validation: %d seeded mutants / benign edits behaved as expected" % okn)
+                okn, problems = mutate.validate(pid, verbose=False, campaign=True)
+                chk.note("self-validation: %d cases behaved as expected (own mutants and benign edits, the sub-agent refactorings of /verif/benign, the sub-agent defects of /verif/seeded recorded for this property)" % okn)
                 chk.self_validation = {"as_expected": okn, "problems": problems}
                 if problems:
                     raise Broken("self-validation failed (checker misses a seeded mutant or flags a benign edit): %s" % problems)
